@@ -1886,7 +1886,7 @@ impl<'o> R<'o> {
                     0
                 }
             }
-            After::MapKey if is_seq && anchor.is_none() && rare(u, 1, 3) => {
+            After::MapKey if is_seq && rare(u, 1, 3) => {
                 // a block sequence may sit at its parent key's indentation
                 self.st.seq_at_parent_indent += 1;
                 col as usize
